@@ -170,6 +170,81 @@ def check_layouts(run, repo, world, folder, rx):
                                          "GearGroup", "address",
                                          "DeviceShort,InstanceType")
                        else None)
+    # ---- event messages: header bits 23..10 per scheme (Table 3) -----------
+    nev = 0
+    for r in rows:
+        if r.family != "_Event" or r.instance_type is None:
+            continue
+        it = _bits(r.instance_type, 5)
+        from .C12 import SCHEMES
+        argname = {"short_address": "sa", "instance_number": "inum",
+                   "device_group": "dg", "instance_group": "ig"}
+        schemes = []
+        for (b23, b22, b15), (sname, fields) in SCHEMES.items():
+            lanes = {23: b23, 16: 0, 15: b15}
+            if b22 is not None:
+                lanes[22] = b22
+            kw = {}
+            for fname, (hi, lo) in fields.items():
+                if fname == "instance_type":
+                    for i in range(5):
+                        lanes[lo + i] = it[i]
+                else:
+                    kw[fname] = argname[fname]
+                    for i in range(hi - lo + 1):
+                        lanes[lo + i] = P(argname[fname], i)
+            schemes.append((sname, kw, [lanes[b] for b in range(23, 9, -1)]))
+        for (sname, kw, want_msb) in schemes:
+            I = Interp(world, rx, folder)
+            k = {a: IvInt(b) for a, b in kw.items()}
+            if r.name in ("LightEvent", "OccupancyEvent"):
+                k["data"] = IvInt("data")
+            outs = construct(I, State(), r.cls, [], k)
+            good = [(v, s_) for (v, s_) in outs if not isinstance(v, Raise)]
+            legal = {"sa": 63, "inum": 31, "dg": 31, "ig": 31, "data": 1023}
+            bad = []
+            for (v, s_) in outs:
+                if not isinstance(v, Raise) or str(v.exc).startswith(
+                        ("UNVALIDATED", "TRUNCATED")):
+                    continue
+                # a refusal is wrong when every argument it was decided on
+                # is inside its legal range
+                ivs = {x.name: x for x in s_.ivref.values()}
+                names = [b for b in list(kw.values()) + (
+                    ["data"] if "data" in k else [])]
+                if names and all(
+                        n_ in ivs and ivs[n_].lo is not None and
+                        ivs[n_].hi is not None and ivs[n_].lo >= 0 and
+                        ivs[n_].hi <= legal[n_] for n_ in names
+                        if n_ in ivs) and any(n_ in ivs for n_ in names):
+                    bad.append(v)
+            full = False
+            for (v, s_) in good:
+                iv_to_lanes({}, s_)
+                got = _frame_lanes(s_, v)
+                nev += 1
+                head = list(reversed(got))[:14] if got else None
+                ok = head == want_msb
+                # every legal number of the scheme's fields is accepted
+                ivs = [x for x in s_.ivref.values()]
+                run.ob("R-LAYOUT", "%s#event:%s" % (r.cls.qname, sname), ok,
+                       "event header bits 23..10 are %s, IEC 62386-103 "
+                       "Table 3 assigns %s" % (
+                           _fmt(list(reversed(head))) if head else None,
+                           _fmt(list(reversed(want_msb)))),
+                       where(repo.mod(r.mod), r.cls.node))
+                full = full or all(
+                    x.lo == 0 for x in ivs if x.name in kw.values())
+            run.ob("R-LAYOUT", "%s#event:%s#all-numbers" % (r.cls.qname,
+                                                            sname),
+                   bool(good) and full and not bad,
+                   "constructing the event in the %s scheme is refused for "
+                   "some legal number (accepted intervals %s; refusals %s)"
+                   % (sname, [repr(x) for (v, s_) in good
+                              for x in s_.ivref.values()],
+                      [str(b.exc)[:60] for b in bad][:2]),
+                   where(repo.mod(r.mod), r.cls.node), trivial=True)
+    run.floor("event headers compared with Table 3", nev, 50)
     run.floor("constructed frames compared with the standard's layout", n,
               1500)
     # DAPC
